@@ -340,3 +340,13 @@ def deep_search(rng, tier, g, cand):
 
 
 known_match = common.no_known
+
+
+def literal_ops(lit):
+    if lit <= 45:
+        yield "b32_enc %s 1 %s" % (sx("bc"), hx(bytes(range(lit))))
+        yield "b32_enc %s 0 %s" % (sx("tb"), hx(bytes(lit)))
+    if lit <= 40:
+        yield "b32_enc %s %d %s" % (sx("bc"), lit, hx(bytes(20)))
+    if lit <= 84:
+        yield "b32_enc %s 1 %s" % (sx("x" * lit), hx(bytes(20)))
